@@ -92,62 +92,9 @@ Fixpoint wf_node (nd : node) : bool :=
 Definition wf (cs : list node) : bool := wf_level cs && forallb wf_node cs.
 
 (* ------------------------------------------------------------------------------------------ *)
-(* D14, as a predicate on the input tree.
+(* the quirk-table machinery (the table is empty nowadays).
 
-   While a level P skips the inline payloads of a nested component C it holds 1 + (the number of module /
-   component sections C's own parse handled) stack entries -- for a C that is itself parsed correctly that is
-   1 + children(C) -- but C's inline stream contains one End per nested body at *any* depth: 1 + desc(C).
-   So P's stack is empty after the (1 + children(C))-th End, and every payload of C's stream behind that End is
-   taken for a section of P.  Nothing is mis-attributed exactly when only Ends are left there, i.e. when that
-   End already lies in the run of Ends that closes C's stream.  That closing run has 1 + chain(C) Ends, where
-   chain(C) is the length of the chain "C's last section is a nested body whose last section is a nested body
-   ..." (a module ends a chain).  Hence
-
-       C leaks into its parent   <->   deep(C) > chain(C),     deep(C) = desc(C) - children(C)
-                                                               = nested bodies at depth >= 2 below C.
-
-   (Examples: [[[m]]] is harmless (deep 1, chain 2); [[[m]; X]] leaks X for any section X that is not a nested
-   body (deep 1, chain 0); [[[m]; m']] is harmless (m' absorbs the deficit); [[[m1; m2; m3]]] leaks m3.)
-   [known_D14 t]: some component strictly below the root leaks into its parent.  Depth: a leak needs a
-   grandchild of a non-root component, so it needs nesting depth >= 3 (root = 0). *)
-(* (structure counts, in nat: they are bounded by the size of the tree and only ever compared) *)
-Definition is_body (nd : node) : bool := match nd with NMod _ _ | NComp _ => true | _ => false end.
-Fixpoint desc_node (nd : node) : nat :=
-  match nd with
-  | NMod _ _ => 1
-  | NComp cs => S (fold_right (fun c n => desc_node c + n) O cs)
-  | _ => O
-  end%nat.
-Definition desc (cs : list node) : nat := fold_right (fun c n => desc_node c + n)%nat O cs.
-Definition children (cs : list node) : nat := length (filter is_body cs).
-Definition deep (cs : list node) : nat := (desc cs - children cs)%nat.
-Fixpoint chain_node (nd : node) : nat :=
-  match nd with
-  | NMod _ _ => 1
-  | NComp cs =>
-      S ((fix last_chain (l : list node) : nat :=
-            match l with
-            | [] => O
-            | [x] => chain_node x
-            | _ :: r => last_chain r
-            end) cs)
-  | _ => O
-  end%nat.
-Fixpoint chain (cs : list node) : nat :=
-  match cs with
-  | [] => O
-  | [x] => chain_node x
-  | _ :: r => chain r
-  end.
-Definition leaks (cs : list node) : bool := Nat.ltb (chain cs) (deep cs).
-Fixpoint d14_node (nd : node) : bool :=
-  match nd with
-  | NComp cs => leaks cs || existsb d14_node cs
-  | _ => false
-  end.
-Definition known_D14 (cs : list node) : bool := existsb d14_node cs.
-
-(* D28 / D29 (wrappers.rs): a component-type item that the re-encoding helpers change -- exactly the items the
+   D28 / D29 (wrappers.rs): a component-type item that the re-encoding helpers change -- exactly the items the
    harness lists in the case's [sf] table with a different image.  D28: a payload-less `stream` inside a nested
    component / instance type declaration comes back as `future`; D29: an explicit core rec group inside an
    instance type declaration (or inside a nested component type declaration) comes back as separate types.
@@ -217,8 +164,9 @@ Definition quirk_classes (c : ccase) : list N :=
        | ks => dedup ks
        end
   else [].
-Definition classes27 (c : ccase) : list N :=
-  (if known_D14 (c_in c) then [14] else []) ++ quirk_classes c.
+(* (the input class D14 -- a nested component with bodies at depth >= 2 whose sections leaked into its parent -- is
+   gone: Component::parse_comp now follows the nesting while it skips, see Model/Comp.v) *)
+Definition classes27 (c : ccase) : list N := quirk_classes c.
 
 Definition verdict27 (c : ccase) : bool * bool * bool * list N :=
   (agree c, domain27 c, holds27 c, classes27 c).
